@@ -253,6 +253,8 @@ def checks(outdir, k, n):
         desc0 = open(os.path.join(outdir, m + ".txt")).read()
         first = next((v for k, v in ORDER.items() if desc0.startswith(k)), [])
         order = first + [i for i in ids if i not in first]
+        if os.environ.get("AUTOMUT_TOP") == "1" and first:
+            order = first  # only the checks that bear on the mutated file (a quicker census; says so in its output)
         for p in order:
             if caught and os.environ.get("AUTOMUT_ALL") != "1":
                 break  # census question is caught / not caught; AUTOMUT_ALL=1 runs every check regardless
@@ -266,7 +268,7 @@ def checks(outdir, k, n):
         if caught:
             open(resf, "a").write("%s caught-by=%s%s :: %s\n" % (m, ",".join(caught), (" inconclusive=" + ",".join(odd)) if odd else "", desc))
         else:
-            open(resf, "a").write("%s MISSED%s :: %s\n" % (m, (" inconclusive=" + ",".join(odd)) if odd else "", desc))
+            open(resf, "a").write("%s MISSED%s%s :: %s\n" % (m, (" inconclusive=" + ",".join(odd)) if odd else "", " (only %s tried)" % ",".join(order) if len(order) < len(ids) else "", desc))
     subprocess.check_call(["git", "-C", wt, "checkout", "-q", "--", "."])
 
 
